@@ -1010,7 +1010,18 @@ fn main() {
 
     if let Some(target) = case.get("target").filter(|t| !t.is_null()) {
         let leg = case["leg"].as_u64().unwrap_or(0) as usize;
-        let tgt = job_activity(target);
+        let mut tgt = job_activity(target);
+        if case.get("target_multi").and_then(|v| v.as_bool()).unwrap_or(false) {
+            // the target is the first task (pickup) of a shipment: a multi job with a delivery task of the same amount
+            use vrp_core::models::problem::Multi;
+            let pickup = tgt.job.clone().unwrap();
+            let amount = pickup.dimens.get_job_demand::<SingleDimLoad>().map(|d| d.pickup.1).unwrap_or_default();
+            let mut dimens = Dimensions::default();
+            dimens.set_job_demand(Demand { pickup: (SingleDimLoad::default(), SingleDimLoad::default()), delivery: (SingleDimLoad::default(), amount) });
+            let delivery = Arc::new(Single { places: vec![], dimens });
+            let multi = Multi::new_shared(vec![pickup, delivery], Dimensions::default());
+            tgt.job = Some(multi.jobs[0].clone());
+        }
         let prev = rc.route().tour.get(leg).unwrap();
         let next = rc.route().tour.get(leg + 1);
         let activity_ctx = ActivityContext { index: leg, prev, target: &tgt, next };
